@@ -167,6 +167,29 @@ def inst_try_add_arms(cx, iid):
         if len(somes) < 3:
             inst.violation(b.path, "Some returns", "expected three Some(Packet) returns (dud, single fragment, completed), found %d" % len(somes))
         cx.preceded_by(inst, b, somes, closes, "packet produced without closing its slot", "window[idx] = Closed(..)")
+        # what a produced packet carries: a datagram's own bytes only when it is the packet's only fragment
+        # (fragment_id_last == 0); otherwise the finished reassembly buffer; a dud carries nothing
+        for loc, kind, node in b.defs.get(0, []):
+            if kind != "assign" or node["rv"]["k"] != "agg" or node["rv"].get("variant") != "Some":
+                continue
+            pe = b.operand_expr(node["rv"]["ops"][0])
+            if pe[0] != "agg" or not pe[1].endswith("Packet") or len(pe) < 4 or "data" not in pe[3]:
+                inst.violation(b.path, "Some(Packet) shape", "a produced packet is not a Packet literal: %s" % show(pe)[:80], at=b.span_at(loc))
+                continue
+            dv = show(pe[2][pe[3].index("data")])
+            inst.site(b, loc, "Packet.data = " + dv[:70])
+            if dv == "None{}":
+                continue
+            if dv == "Some{arg3.data}":
+                cx.guard(inst, b, [(loc, "Some(Packet{data: datagram.data})")], [[r"eq\(0,arg3\.fragment_id_last\)"]],
+                         construct="datagram bytes delivered as a whole packet",
+                         why="only a packet that consists of one fragment may be delivered from the datagram's own bytes; a last fragment that arrives first is not the packet")
+            elif re.fullmatch(r"Some\{FragmentBuffer::finalize\(.*asm_buffer\)\}", dv):
+                cx.guard(inst, b, [(loc, "Some(Packet{data: finalize()})")], [[r"FragmentBuffer::is_finished\(.*asm_buffer\)"]],
+                         construct="reassembly buffer delivered before it is complete",
+                         why="the reassembly buffer may be handed on only once every fragment has been written")
+            else:
+                inst.violation(b.path, "packet payload", "a produced packet carries `%s`: neither the single fragment's bytes, nor the finished reassembly buffer, nor nothing (dud)" % dv[:100], at=b.span_at(loc))
 
 
 def inst_receive_walk(cx, iid):
@@ -233,11 +256,38 @@ def inst_id_arith(cx, iid):
         if mask != 0xFFFFF or span != mask + 1:
             inst.violation("packet_id", "MASK/SPAN", "MASK=%#x SPAN=%#x: expected a 20-bit id space with SPAN = MASK + 1" % (mask, span))
         p = R.body("DataFrameEmitter::push")
-        caps = [show(p.call_expr(t)) for l, t in p.calls("Ord::min") if "packet_id::SPAN" in show(p.call_expr(t))]
+        capes = [p.call_expr(t) for l, t in p.calls("Ord::min") if "packet_id::SPAN" in show(p.call_expr(t))]
+        caps = [show(c) for c in capes]
         inst.site(p, None, "per-frame datagram cap: %s" % caps)
-        want = re.compile(rx_comm("Ord::min", r"cast<usize>\(div\(packet_id::SPAN,mul\(2,MAX_FRAME_WINDOW_SIZE\)\)\)", r"frame::serial::build::DataFrameBuilder::MAX_COUNT"))
-        if len(caps) != 1 or not want.fullmatch(caps[0]):
-            inst.violation(p.path, "datagram cap", "per-frame datagram cap is %s, expected min(SPAN/(2*MAX_FRAME_WINDOW_SIZE), MAX_COUNT)" % caps)
+
+        def cval(e):
+            # the cap is a constant expression over the crate's own constants: compare its value and its ingredients
+            if e[0] == "cast":
+                return cval(e[2])
+            if e[0] == "const":
+                try:
+                    return int(str(e[1]))
+                except ValueError:
+                    try:
+                        return R.const_int(str(e[3] or e[1]))
+                    except Exception:
+                        return None
+            if e[0] == "bin" and e[1] in ("Mul", "Div", "Add", "Sub"):
+                a, b_ = cval(e[2]), cval(e[3])
+                if a is None or b_ is None or (e[1] == "Div" and b_ == 0):
+                    return None
+                return {"Mul": a * b_, "Div": a // b_ if e[1] == "Div" else 0, "Add": a + b_, "Sub": a - b_}[e[1]]
+            if e[0] == "call" and e[1] == "Ord::min" and len(e[2]) == 2:
+                a, b_ = cval(e[2][0]), cval(e[2][1])
+                return None if a is None or b_ is None else min(a, b_)
+            return None
+        try:
+            wantv = min(span // (2 * R.const_int("MAX_FRAME_WINDOW_SIZE")), R.const_int("frame::serial::build::DataFrameBuilder::MAX_COUNT"))
+        except Exception:
+            wantv = None
+        gotv = cval(capes[0]) if len(capes) == 1 else None
+        if len(caps) != 1 or wantv is None or gotv != wantv or not all(x in caps[0] for x in ("packet_id::SPAN", "MAX_FRAME_WINDOW_SIZE", "DataFrameBuilder::MAX_COUNT")):
+            inst.violation(p.path, "datagram cap", "per-frame datagram cap is %s (= %s), expected min(SPAN/(2*MAX_FRAME_WINDOW_SIZE), MAX_COUNT) = %s" % (caps, gotv, wantv))
         else:
             adds = call_sites(p, "DataFrameBuilder::add", r"arg1\.in_progress_frame")
             cx.guard(inst, p, adds, [[r"lt\(DataFrameBuilder::count\(arg1\.in_progress_frame@Some\.0\.fbuilder\),Ord::min\(.*\)\)"]], construct="datagram added beyond the per-frame cap")
@@ -385,6 +435,8 @@ def run(cx):
     # pass packets whose fragments then arrive late: they fall outside the window or into a re-used slot
     from props.C02 import inst_resync_guard
     inst_resync_guard(cx, "C01.q")
+    from props.shared import window_pass_guard
+    window_pass_guard(cx, "C01.r")
 
 
 SELFTEST = [
